@@ -122,3 +122,24 @@ def _xproc_collision(case, v):
     whether the unpickled array's DAG and the local arrays' DAGs share a node name)."""
     return bool(v.get("name_collision")) and (v.get("cls", "").startswith("wrong_value_combined")
                                               or v.get("cls", "").startswith("compute_failed"))
+
+
+@matcher("mem_strided_or_array_index")
+def _mem_index(case, v):
+    """Indexing with a non-unit / negative slice step or an integer array under-projects memory."""
+    if v.get("cls") != "task_exceeds_projected_mem" or v.get("func") != "__getitem__":
+        return False
+    for st in case["prog"]["steps"]:
+        if st["op"] == "getitem":
+            for e in st["p"]["idx"]:
+                if e[0] == "a" or (e[0] == "s" and e[3] not in (None, 1)):
+                    return True
+    return False
+
+
+@matcher("mem_fused_arg_reduction")
+def _mem_argred(case, v):
+    """argmax/argmin fused with its elementwise predecessors under-projects memory."""
+    if v.get("cls") != "task_exceeds_projected_mem" or v.get("func") not in ("argmin", "argmax"):
+        return False
+    return (case.get("opt") or {}).get("kind") != "off" and any(st["op"] == "argred" for st in case["prog"]["steps"])
